@@ -56,6 +56,12 @@ type ufMid struct {
 	Y interface{} `struct:",inline"`
 }
 
+// ufIn is a plain struct inlined through a pointer by two different struct types
+type ufIn struct {
+	Q int
+	R string
+}
+
 // ufR has a REGISTERED folder that emits an object (so that it can also be inlined)
 type ufR struct {
 	K string
@@ -90,8 +96,9 @@ func (z ufZ) IsZero() bool { return z.N == 0 }
 
 func ufTString(t *ufT) string { return "T:" + strconv.Itoa(t.A) + ":" + t.B }
 
-var userFoldOpts = gotype.Folders(
-	func(t *ufT, v structform.ExtVisitor) error { return v.OnString(ufTString(t)) },
+var userFoldOptT = gotype.Folders(func(t *ufT, v structform.ExtVisitor) error { return v.OnString(ufTString(t)) })
+
+var userFoldOptRest = gotype.Folders(
 	func(b *ufBox, v structform.ExtVisitor) error { return v.OnString("BOX:" + strconv.Itoa(*b.P)) },
 	func(m *ufMap, v structform.ExtVisitor) error { return v.OnString("MAP:" + strconv.Itoa(len(*m))) },
 	func(r *ufR, v structform.ExtVisitor) error {
@@ -331,6 +338,31 @@ func userPlacement(idx int, r *rng) (interface{}, interface{}) {
 			return ufNode{V: n}, xo{{"v", n}}
 		}
 		return ufNode{V: n, Next: &ufNode{V: n + 1, Next: &ufNode{V: n + 2}}}, xo{{"v", n}, {"v", n + 1}, {"v", n + 2}}
+	case 38:
+		// two struct types inlining the same pointer type: the inline folder is cached per iterator
+		in := &ufIn{Q: n, R: k}
+		if r.bool() {
+			return struct {
+				X int
+				P *ufIn `struct:",inline"`
+			}{1, in}, xo{{"x", 1}, {"q", n}, {"r", k}}
+		}
+		return struct {
+			P *ufIn `struct:",inline"`
+			Y int
+		}{in, 2}, xo{{"q", n}, {"r", k}, {"y", 2}}
+	case 39:
+		// ... and the same type inlined by value, and nil
+		if r.bool() {
+			return struct {
+				Z int
+				P ufIn `struct:",inline"`
+			}{3, ufIn{Q: n, R: k}}, xo{{"z", 3}, {"q", n}, {"r", k}}
+		}
+		return struct {
+			Z int
+			P *ufIn `struct:",inline"`
+		}{3, nil}, xo{{"z", 3}}
 	case 37:
 		// inlined interface{} inside a value held by an inlined interface{}
 		return struct {
@@ -341,7 +373,7 @@ func userPlacement(idx int, r *rng) (interface{}, interface{}) {
 	panic("userPlacement")
 }
 
-const nUserPlacements = 38
+const nUserPlacements = 40
 
 // placement 20 needs the value it generated: build it here with one rng so that value and expectation agree
 func userPlacementFixed(idx int, seed uint64) (interface{}, interface{}) {
@@ -371,7 +403,7 @@ func userfoldRun(mode string, items [][2]uint64) string {
 		if mode == "p" {
 			vis = xrec.refRecorder.recorder // a plain visitor: no extended interfaces
 		}
-		it, e := gotype.NewIterator(vis, userFoldOpts)
+		it, e := gotype.NewIterator(vis, userFoldOptT, userFoldOptRest)
 		if e != nil {
 			err = e
 			return
@@ -384,6 +416,27 @@ func userfoldRun(mode string, items [][2]uint64) string {
 				if i == len(items)-1 {
 					got = xrec.evs
 					wantErr = true
+				}
+				continue
+			}
+			if item[0] == nUserPlacements+1 {
+				// option values are inputs: an iterator built from the first option alone must not
+				// see folders that another iterator added through a second option
+				other := newXRecorder(-1)
+				if _, e := gotype.NewIterator(other, userFoldOptT, userFoldOptRest); e != nil {
+					err = e
+					return
+				}
+				it2, e := gotype.NewIterator(vis, userFoldOptT)
+				if e != nil {
+					err = e
+					return
+				}
+				xrec.evs = nil
+				err = it2.Fold(1.5)
+				if i == len(items)-1 {
+					got = xrec.evs
+					want = []event{{kind: evNum, sc: scU(kFloat64, math.Float64bits(1.5))}}
 				}
 				continue
 			}
@@ -409,7 +462,7 @@ func userfoldCase(r *rng) string {
 	items := make([][2]uint64, n)
 	parts := make([]string, n)
 	for i := range items {
-		items[i] = [2]uint64{uint64(r.n(nUserPlacements + 1)), r.u64() % 1000003}
+		items[i] = [2]uint64{uint64(r.n(nUserPlacements + 2)), r.u64() % 1000003}
 		parts[i] = fmt.Sprintf("%d:%d", items[i][0], items[i][1])
 	}
 	mode := []string{"x", "p"}[r.n(2)]
